@@ -228,22 +228,54 @@ template <class S> void size_profiles(vf::Ctx& c, const char* tname) {
   }
 }
 
+
+// ---- general (non-diagonal) affine preconditioners: A x + b component by component ---------------------------------------------------------
+template <class S> void dense_preconditioners(vf::Ctx& c, const char* tname) {
+  using Vec = typename Problem<S>::Vec; using Mat = typename Problem<S>::Mat;
+  long double eps = std::numeric_limits<S>::epsilon();
+  for (int p : {2, 3, 6}) for (int n : {p + 2, 40}) for (int kind = 0; kind < 4; ++kind) for (int solver = 0; solver < 3; ++solver) {
+    Problem<S> P = make_problem<S>(n, p, 3, 1, 1, solver == 2 ? 1 : 0, 0, kind + 1);
+    Mat A = Mat::Identity(p, p); Vec b(p); for (int j = 0; j < p; ++j) b(j) = (S)(0.125 * (j + 1));
+    if (kind == 0) { for (int i = 0; i < p; ++i) for (int j = 0; j < p; ++j) A(i, j) = (S)((i == j ? 1.5 : 0.0) + 0.3 * std::cos(1.0 + 2.0 * i + 0.7 * j)); }           // generic dense
+    if (kind == 1) { for (int j = 0; j < p; ++j) A(j, j) = (S)(j == 0 ? 2e6 : 1.0); A(p - 1, 0) = (S)1e-7; }                                              // mixed-scale diagonal with a coupling that is tiny only relative to the largest entry
+    if (kind == 2) { for (int j = 0; j < p; ++j) A(j, j) = (S)(j % 2 ? 1e-3 : 1e3); A(0, p - 1) = (S)(std::is_same<S, double>::value ? 1e-10 : 1e-3); }   // the same the other way round
+    if (kind == 3) { for (int i = 0; i < p; ++i) for (int j = i; j < p; ++j) A(i, j) = (S)(1.0 + 0.25 * (j - i)); }                                        // upper triangular
+    LM Jl = P.J.template cast<long double>(); LV Yl = P.Y.template cast<long double>();
+    if (P.weighted) for (int i = 0; i < n; ++i) { Jl.row(i) *= (long double)P.W(i); Yl(i) *= (long double)P.W(i); }
+    Eigen::JacobiSVD<LM> svd(Jl); long double smax = svd.singularValues()(0), kap = smax / svd.singularValues()(p - 1);
+    LV x0 = Jl.householderQr().solve(Yl);
+    LM Al = A.template cast<long double>(); LV want = Al * x0 + b.template cast<long double>();
+    long double tolx = 8 * p * eps * kap * kap * (x0.norm() + Yl.norm() / smax);
+    LeastSquares<S> ls(p); load(ls, P, true); ls.setPreconditionner(A, b);
+    Vec x = solve(ls, P, solver == 2 ? 0 : solver);
+    c.eval(); c.nontrivial();
+    for (int i = 0; i < p; ++i) {
+      long double rowsum = 0; for (int j = 0; j < p; ++j) rowsum += fabsl(Al(i, j));
+      long double tol = 3 * tolx * rowsum + 16 * eps * (fabsl(want(i)) + rowsum * x0.norm()) + 1e-300L, err = fabsl((long double)x(i) - want(i));
+      c.obs((double)x(i));
+      if (!(err <= tol)) { c.violation("LeastSquares.preconditioner.notAxPlusB", vf::JO().str("type", tname).i("estimate_size", p).i("data_size", n).i("preconditioner_kind", kind).str("solver", solver == 0 ? "Cholesky" : solver == 1 ? "SVD" : "weighted").done(), vf::JO().i("component", i).num("got", x(i)).num("want", want(i)).num("tol", tol).done()); break; }
+    }
+  }
+}
+
 }  // namespace
 
 // cases: L: 2 types x 8 p x 9 n ; S: 2 types x 81 first ops
-uint64_t vf_ncases(const std::string& tier) { return 144 + 162 + 80 + 16 + 2; }
+uint64_t vf_ncases(const std::string& tier) { return 144 + 162 + 80 + 16 + 2 + 2; }
 
 void vf_run(uint64_t idx, const std::string& tier, vf::Ctx& c) {
   if (idx < 144) { int t = idx / 72, p = (idx % 72) / 9 + 1, ni = idx % 9; if (t == 0) lattice<double>(c, "double", p, ni); else lattice<float>(c, "float", p, ni); }
   else if (idx < 144 + 162) { int k = (int)idx - 144; int depth = tier == "thorough" ? 4 : 3; if (k < 81) sequences<double>(c, "double", depth, k); else sequences<float>(c, "float", depth, k - 81); }
   else if (idx < 386) { int k = (int)idx - 306; if (k < 40) sequences<double>(c, "double", 0, k, true); else sequences<float>(c, "float", 0, k - 40, true); }
   else if (idx < 402) { int k = (int)idx - 386; if (k < 8) lattice<double>(c, "double", k + 1, 9); else lattice<float>(c, "float", k - 8 + 1, 9); }
-  else if (idx == 402) size_profiles<double>(c, "double"); else size_profiles<float>(c, "float");
+  else if (idx == 402) size_profiles<double>(c, "double"); else if (idx == 403) size_profiles<float>(c, "float");
+  else if (idx == 404) dense_preconditioners<double>(c, "double"); else dense_preconditioners<float>(c, "float");
 }
 
 std::string vf_describe(const std::string& tier) {
   vf::JO o;
   o.str("L", "estimate size 1..8 x data size {p,p+1,2p,50,500,31,32,64,257} x kappa {1,1e2,3e2,1e4,1e6} x magnitude {2^-27,2^-10,1,2^10} (float {2^-13,2^-6,1,2^6}) x Y {consistent, inconsistent, strongly inconsistent} x weights {none, alternating 1/4..4, one zero, one huge} x preconditioner {none, diagonal, diagonal+offset, identity+offset}; cases with 8 p kappa^2 eps > 0.5 are skipped (no digits in the normal equations)");
+  o.str("L_dense_preconditioners", "non-diagonal A: generic dense, mixed-scale diagonal (2e6 / 1, 1e3 / 1e-3) with one coupling entry that is tiny only relative to the largest entry, upper triangular; estimate sizes {2,3,6}, all three solver paths; A x + b compared component by component relative to the row of A");
   o.str("S_size_profiles", "one solver through 16-problem histories of data sizes: one big then many small (below / around a quarter), 8-500-8.., shrinking by 2/3, alternating 400/40, growing; estimate sizes {2,3,6}; preconditioner set once or never; Cholesky / SVD / alternating / weighted; J/Y/W written through references fetched per problem or held from before the first problem; every third problem optionally ill-conditioned; each answer vs a fresh solver");
   o.str("L_all_sizes", "every data size from p to 500 for p = 1..8, float and double, kappa 30, inconsistent Y, weights {none, alternating}, preconditioner {none, diagonal+offset}, all three solver paths");
   o.str("L_oracle", "Householder-QR solution in long double; |x - x_ref| <= 8 p eps kappa^2 (|x|+|Y|/smax); normal-equation residual; Cholesky vs SVD path");
